@@ -56,6 +56,10 @@ def head(r):
         return ('call', r[1], fixed if ax else None)
     if r[0] in ('sum', 'maxof', 'minof', 'optor', 'pos', 'min', 'max', 'try', 'ind', 'count'):
         return (r[0],)
+    if r[0] == 'match':
+        return ('match', r[1])
+    if r[0] == 'ite':
+        return ('ite', r[1])
     return r
 
 
@@ -180,6 +184,25 @@ class Cmp:
             return self.cmp(a[2], e[2])
         if tag in ('ok', 'some'):
             return self.cmp(a[1], e[1])
+        if tag == 'match':
+            if a[1] != e[1] or len(a[2]) != len(e[2]):
+                self.note(f'match on {T.show(a[1])} vs {T.show(e[1])}')
+                return MIXED
+            res = EQ
+            for x, y in zip(a[2], e[2]):
+                if x[0] != y[0] or x[1] != y[1]:
+                    self.note(f'match arm {x[0]} vs {y[0]}')
+                    return MIXED
+                d = self.cmp(x[2], y[2])
+                if d != EQ:
+                    self.note(f'in match arm {str(x[0]).split("::")[-1]}')
+                res = combine(res, d)
+            return res
+        if tag == 'ite':
+            if a[1] != e[1]:
+                self.note(f'condition {T.show(a[1])} vs expected {T.show(e[1])}')
+                return MIXED
+            return combine(self.cmp(a[2], e[2]), self.cmp(a[3], e[3]))
         self.note(f'{T.show(a)} differs from {T.show(e)}')
         return MIXED
 
@@ -252,5 +275,5 @@ class Cmp:
 
 def compare(a, e):
     c = Cmp()
-    d = c.cmp(T.norm_bv(a), T.norm_bv(e))
+    d = c.cmp(T.canon(a), T.canon(e))
     return d, c.notes
